@@ -439,6 +439,30 @@ def codec_job(prop, tier, seed, job, policy, known, acc):
     acc.setdefault('trace_samples', []).append({'trace_of': 'Abi', 'events': sample})
 
 
+def apalache_job(prop, tier, seed, job, policy, known, acc):
+    """unbounded-history argument on the design: an inductive invariant discharged by Apalache (base case,
+    inductive step from an arbitrary invariant state, and a refutation run showing the step is not vacuous)"""
+    d = os.path.join(SPEC, 'apalache')
+    outdir = os.path.join(WORK, prop, 'apalache')
+    os.makedirs(outdir, exist_ok=True)
+    runs = [('base', ['--init=Init', '--inv=' + job['inv'], '--length=0'], 'NoError'),
+            ('step', ['--init=IndInit', '--inv=' + job['inv'], '--length=1'], 'NoError'),
+            ('non_vacuous', ['--init=IndInit', '--inv=' + job['refute'], '--length=1'], 'Error')]
+    res = {}
+    t = time.time()
+    for name, args, want in runs:
+        p = subprocess.run(['timeout', str(job.get('timeout', 2400)), 'apalache-mc', 'check', *args, '--out-dir=' + outdir, job['module'] + '.tla'],
+                           cwd=d, stdout=subprocess.PIPE, stderr=subprocess.STDOUT, text=True)
+        got = 'NoError' if 'The outcome is: NoError' in p.stdout else ('Error' if 'The outcome is: Error' in p.stdout else 'unknown')
+        res[name] = got
+        if got != want:
+            raise ToolError('apalache %s on %s: expected %s, got %s\n%s' % (name, job['module'], want, got, p.stdout[-1500:]))
+    acc['jobs'].append({'spec': 'apalache/' + job['module'], 'engine': 'apalache-mc 0.58', 'inductive_invariant': job['inv'],
+                        'obligations': 2, 'discharged': 2, 'non_vacuity_refutation': res['non_vacuous'], 'apalache_s': round(time.time() - t, 1),
+                        'distinct_nontrivial': 2})
+    shutil.rmtree(outdir, ignore_errors=True)
+
+
 def write_evidence(prop, tier, seed, acc, wall, level_rule, assumptions):
     jobs = acc['jobs']
     cov = {
